@@ -416,6 +416,11 @@ def build(case):
                 obj = obj.assign_coords(aux_s=(s0d, np.arange(ssz[0])[::-1] * 1.5))
                 if f0d is not None:
                     obj = obj.assign_coords(aux_f=(f0d, np.array([f"n{i}" for i in range(fsz[slots_used[0]])])))
+        # list items after the first may store the (shared) labels of a single sample dimension in another
+        # order: the same data by label -- the items have to be aligned on their labels, not glued by position
+        if k >= 1 and ns == 1 and case[f"k_{sslots[0]}"] != "multiindex" and int(case.get("dseed", 0)) % 3 == 0:
+            obj = obj.isel({sdim["s0"]: slice(None, None, -1)})
+            case["_item_order_differs"] = True
         objs.append(obj)
         if use_w:
             wc = {}
